@@ -199,13 +199,34 @@ type ver struct {
 	kinds  map[string]int
 	types  map[string]int // type identifier -> base id (declared in this version)
 	sparse int            // corpus: crash points only every sparse-th byte in the quick tier (slow packages)
+	stem   string         // the user's files are <stem>.go and <stem>_test.go ("" = a): "main", "types" sort BEHIND derived.gen.go
+	pname  string         // name in the package clause ("" = p)
 }
 
 // inPackage: the same version with another package name.
 func (v ver) inPackage(name string) ver {
-	v.src = strings.Replace(v.src, "package p\n", "package "+name+"\n", 1)
-	v.test = strings.Replace(v.test, "package p\n", "package "+name+"\n", 1)
+	v.pname = name
 	return v
+}
+
+// named: the same version in files <stem>.go / <stem>_test.go with package clause pname.
+func (v ver) named(stem, pname string) ver {
+	v.stem, v.pname = stem, pname
+	return v
+}
+
+// text: file names and texts of the user's files as they are written to disk.
+func (v ver) text() (fname, src, tname, test string) {
+	stem := v.stem
+	if stem == "" {
+		stem = "a"
+	}
+	src, test = v.src, v.test
+	if v.pname != "" && v.pname != "p" {
+		src = strings.Replace(src, "package p\n", "package "+v.pname+"\n", 1)
+		test = strings.Replace(test, "package p\n", "package "+v.pname+"\n", 1)
+	}
+	return stem + ".go", src, stem + "_test.go", test
 }
 
 func (v *version) render() ver {
@@ -763,13 +784,13 @@ func goderiveAt(cfg hx.Config, dir string, mode int, flags ...string) hx.RunResu
 	args := append([]string{}, flags...)
 	switch mode {
 	case 1:
-		return hx.Goderive(cfg.Goderive, dir, append(args, "./inner")...)
+		return goderiveRun(cfg, dir, append(args, "./inner")...)
 	case 2:
-		return hx.Goderive(cfg.Goderive, dir, append(args, "p/inner")...)
+		return goderiveRun(cfg, dir, append(args, "p/inner")...)
 	case 3:
-		return hx.Goderive(cfg.Goderive, dir, append(args, "./...")...)
+		return goderiveRun(cfg, dir, append(args, "./...")...)
 	}
-	return hx.Goderive(cfg.Goderive, dir, append(args, ".")...)
+	return goderiveRun(cfg, dir, append(args, ".")...)
 }
 
 func runIn(cfg hx.Config, dir string, v ver, old []byte, oldExists bool) outcome {
@@ -778,25 +799,33 @@ func runIn(cfg hx.Config, dir string, v ver, old []byte, oldExists bool) outcome
 
 // writeSrc (re)writes the user's files of the package: a.go and, when the version has one, a_test.go.
 func writeSrc(pdir string, v ver) {
-	os.WriteFile(filepath.Join(pdir, "a.go"), []byte(v.src), 0o644)
-	if v.test != "" {
-		os.WriteFile(filepath.Join(pdir, "a_test.go"), []byte(v.test), 0o644)
-	} else {
-		os.Remove(filepath.Join(pdir, "a_test.go"))
+	fname, src, tname, test := v.text()
+	// scratch directories are reused by versions with other file names: no other source file may stay
+	if ents, err := os.ReadDir(pdir); err == nil {
+		for _, e := range ents {
+			if n := e.Name(); strings.HasSuffix(n, ".go") && n != "derived.gen.go" && n != fname && !(n == tname && test != "") {
+				os.Remove(filepath.Join(pdir, n))
+			}
+		}
+	}
+	os.WriteFile(filepath.Join(pdir, fname), []byte(src), 0o644)
+	if test != "" {
+		os.WriteFile(filepath.Join(pdir, tname), []byte(test), 0o644)
 	}
 }
 
 // srcUnchanged: the user's files still hold the text of the version (-autoname/-dedup rewrite them).
 func srcUnchanged(pdir string, v ver) bool {
-	a, err := os.ReadFile(filepath.Join(pdir, "a.go"))
-	if err != nil || string(a) != v.src {
+	fname, src, tname, test := v.text()
+	a, err := os.ReadFile(filepath.Join(pdir, fname))
+	if err != nil || string(a) != src {
 		return false
 	}
-	t, err := os.ReadFile(filepath.Join(pdir, "a_test.go"))
-	if v.test == "" {
+	t, err := os.ReadFile(filepath.Join(pdir, tname))
+	if test == "" {
 		return err != nil
 	}
-	return err == nil && string(t) == v.test
+	return err == nil && string(t) == test
 }
 
 func runInMode(cfg hx.Config, dir string, mode int, v ver, old []byte, oldExists bool) outcome {
@@ -809,10 +838,12 @@ func runInModeFlags(cfg hx.Config, dir string, mode int, flags []string, v ver, 
 	// scratch directories are reused with other modes: exactly one package may exist
 	if mode == 0 {
 		os.RemoveAll(filepath.Join(dir, "inner"))
-	} else {
-		os.Remove(filepath.Join(dir, "a.go"))
-		os.Remove(filepath.Join(dir, "a_test.go"))
-		os.Remove(filepath.Join(dir, "derived.gen.go"))
+	} else if ents, err := os.ReadDir(dir); err == nil {
+		for _, e := range ents {
+			if strings.HasSuffix(e.Name(), ".go") {
+				os.Remove(filepath.Join(dir, e.Name()))
+			}
+		}
 	}
 	gen := filepath.Join(pkgDir(dir, mode), "derived.gen.go")
 	var g hx.RunResult
@@ -824,12 +855,39 @@ func runInModeFlags(cfg hx.Config, dir string, mode int, flags []string, v ver, 
 			os.Remove(gen)
 		}
 		g = goderiveAt(cfg, dir, mode, flags...)
-		if !g.TimedOut {
+		if !g.TimedOut && g.Exit != -2 {
 			break // a 30 s timeout of a 10 ms run is the machine's load, not goderive: try again
 		}
 	}
 	b, err := os.ReadFile(gen)
 	return outcome{exit: g.Exit, exists: err == nil, bytes: b, log: g.Out}
+}
+
+// goderiveRun: hx.Goderive; a process that could not be started or whose output could not be collected (exit -2:
+// fork/exec or the wait for its pipes failed on an overloaded machine) says nothing about goderive and is tried again.
+func goderiveRun(cfg hx.Config, dir string, args ...string) hx.RunResult {
+	var g hx.RunResult
+	for attempt := 0; attempt < 4; attempt++ {
+		g = hx.Goderive(cfg.Goderive, dir, args...)
+		if g.Exit != -2 {
+			break
+		}
+		hx.Sleep(1)
+	}
+	return g
+}
+
+// vetRun: hx.GoVet, tried again when the go command could not be started (exit -2).
+func vetRun(dir string, tags string, pkgs ...string) hx.RunResult {
+	var g hx.RunResult
+	for attempt := 0; attempt < 4; attempt++ {
+		g = hx.GoVet(dir, tags, pkgs...)
+		if g.Exit != -2 {
+			break
+		}
+		hx.Sleep(1)
+	}
+	return g
 }
 
 func sameAs(a, s outcome) bool {
@@ -848,6 +906,8 @@ type collector struct {
 	meta *hx.Meta
 	nrun int
 	bad  int
+
+	modDirect map[string]int
 }
 
 func (c *collector) add(line string) {
@@ -857,9 +917,10 @@ func (c *collector) add(line string) {
 }
 
 func files(v ver, old []byte, oldExists bool) map[string]string {
-	m := map[string]string{"a.go": v.src, "go.mod": "module p\n\ngo 1.24\n"}
-	if v.test != "" {
-		m["a_test.go"] = v.test
+	fname, src, tname, test := v.text()
+	m := map[string]string{fname: src, "go.mod": "module p\n\ngo 1.24\n"}
+	if test != "" {
+		m[tname] = test
 	}
 	if oldExists {
 		m["derived.gen.go (before the run)"] = string(old)
@@ -880,6 +941,9 @@ func ctxOf(v ver, flags []string) string {
 	}
 	if v.test != "" {
 		parts = append(parts, "testfile")
+	}
+	if v.stem != "" && v.stem != "a" {
+		parts = append(parts, "srcbehind") // the user's files sort behind derived.gen.go
 	}
 	return strings.Join(parts, "-")
 }
@@ -1023,6 +1087,30 @@ func Run(cfg hx.Config) (*hx.Meta, error) {
 			h.vers = append(h.vers, v.render())
 			h.desc = append(h.desc, d)
 		}
+		// How the user's files and the package are called must not matter.  In two of three histories the files
+		// are main.go / types.go (+ _test.go), which sort BEHIND derived.gen.go: go/build takes the package name
+		// of a directory from its first file, which is then the old derived.gen.go.  In two of three histories the
+		// package has a name of several letters (a file cut off inside the name in its package clause is a valid
+		// Go file of ANOTHER package), and in every third the package is renamed half way (tool -> kit): the old
+		// derived.gen.go then belongs to another package than the sources.
+		stem := []string{"a", "main", "types"}[(i/2)%3]
+		for si := range h.vers {
+			pname := "p"
+			switch i % 3 {
+			case 1:
+				pname = "tool"
+			case 2:
+				pname = "tool"
+				if si >= (len(h.vers)+1)/2 {
+					pname = "kit"
+				}
+				if si == (len(h.vers)+1)/2 {
+					h.desc[si] += "+rename-package"
+				}
+			}
+			h.vers[si] = h.vers[si].named(stem, pname)
+		}
+		meta.Count("source-files/" + stem + ".go")
 		hists = append(hists, h)
 		meta.Count("history/generated")
 	}
@@ -1059,7 +1147,7 @@ func Run(cfg hx.Config) (*hx.Meta, error) {
 			}
 			if a.exit == 0 && s.exit == 0 {
 				// the result type-checks
-				if vet := hx.GoVet(pkgDir(dir, mode), ""); vet.Exit != 0 {
+				if vet := vetRun(pkgDir(dir, mode), ""); vet.Exit != 0 {
 					fs := files(v, prev.bytes, prev.exists)
 					fs["derived.gen.go (after the run)"] = string(a.bytes)
 					col.meta.AddDirect(hx.Direct{Class: "c07-vet-fails",
@@ -1121,7 +1209,7 @@ func Run(cfg hx.Config) (*hx.Meta, error) {
 			col.meta.CountSafe("flags/" + strings.Join(fl, " ") + map[bool]string{true: "/no call renamed", false: "/calls renamed in the sources"}[modelA])
 			col.observeCtx(cfg, fmt.Sprintf("%s step %d (%s)", h.name, si, h.desc[si]), v, prevF.bytes, prevF.exists, aF, sF, fl, modelA)
 			if aF.exit == 0 && sF.exit == 0 {
-				if vet := hx.GoVet(pkgDir(dirF, modeF), ""); vet.Exit != 0 {
+				if vet := vetRun(pkgDir(dirF, modeF), ""); vet.Exit != 0 {
 					fs := files(v, prevF.bytes, prevF.exists)
 					fs["derived.gen.go (after the run)"] = string(aF.bytes)
 					col.meta.AddDirect(hx.Direct{Class: "c07-vet-fails",
@@ -1215,8 +1303,8 @@ func Run(cfg hx.Config) (*hx.Meta, error) {
 				addr = append(addr, fmt.Sprintf("p/q%d", pi))
 			}
 		}
-		g := hx.Goderive(cfg.Goderive, root, addr...)
-		gs := hx.Goderive(cfg.Goderive, sroot, addr...)
+		g := goderiveRun(cfg, root, addr...)
+		gs := goderiveRun(cfg, sroot, addr...)
 		col.meta.CountSafe("multi-package-invocation/" + map[bool]string{false: "pattern", true: "import-paths"}[mi%2 == 1])
 		for pi, q := range pks {
 			rd := func(rt string, ex int, log string) outcome {
@@ -1239,6 +1327,13 @@ func Run(cfg hx.Config) (*hx.Meta, error) {
 		}
 	})
 
+	// the module histories (modules.go) run beside the crash points
+	modulesDone := make(chan struct{})
+	go func() {
+		defer close(modulesDone)
+		runModules(cfg, col, r)
+	}()
+
 	// crash points, in parallel, one directory per worker slot
 	dirs := make(chan string, 16)
 	for i := 0; i < 16; i++ {
@@ -1260,6 +1355,8 @@ func Run(cfg hx.Config) (*hx.Meta, error) {
 		model := j.model && (len(j.flags) == 0 || srcUnchanged(pkgDir(dir, mode), j.v))
 		col.observeCtx(cfg, fmt.Sprintf("derived.gen.go = first %d bytes of the %s output", j.k, j.which), j.v, cut, true, a, j.s, j.flags, model)
 	})
+
+	<-modulesDone
 
 	runFixed(cfg, col.meta)
 
